@@ -57,10 +57,20 @@ func outcomeClass(o engine.Outcome) string {
 	return "error"
 }
 
+// canonID maps the serial ids of generator-built converters to one id per
+// generator: how many converters a generator has built so far differs between
+// worlds that did and did not run Redefine.
+func canonID(id int) int {
+	if id >= 1000000 {
+		return id / 1000000 * 1000000
+	}
+	return id
+}
+
 func executedSet(evs []engine.Event) string {
 	m := map[int]bool{}
 	for _, e := range evs {
-		m[e.Func] = true
+		m[canonID(e.Func)] = true
 	}
 	var ids []int
 	for id := range m {
@@ -187,8 +197,14 @@ func evalC09(c *engine.Case) engine.Verdict {
 				}
 			}
 			for id, f := range real.Funcs {
-				if s := snap(f); s != snaps[id] {
-					v.Failf("step %d: Func f%d changed after Redefine: %+v -> %+v", si, id, snaps[id], s)
+				old, known := snaps[id]
+				if !known {
+					// a converter a generator built during this planning run
+					snaps[id] = snap(f)
+					continue
+				}
+				if s := snap(f); s != old {
+					v.Failf("step %d: Func f%d changed after Redefine: %+v -> %+v", si, id, old, s)
 					return v
 				}
 			}
@@ -374,6 +390,12 @@ func genC09(g engine.G) *engine.Case {
 		b.AddReverse(40)
 	}
 	sc = b.Sc
+	if g.Pct(25) {
+		// converter generators: the generator function itself is user code
+		// that planning may call, but a converter it returns must not be
+		// executed by Redefine any more than a supplied one
+		sc.Gens = engine.GenGens(g, pal, false)
+	}
 	// more run-once converters than usual
 	for i := range sc.Convs {
 		if g.Pct(35) {
